@@ -309,10 +309,20 @@ class ChildrenList(list):
         :type item: :py:class:`psyclone.psyir.nodes.Node`
 
         '''
-        for position in range(self.index(item) + 1, len(self)):
+        # Nodes are compared by identity (list.index() and list.remove()
+        # would pick the first child that is *equal* to the given item).
+        for index, child in enumerate(self):
+            if child is item:
+                break
+        else:
+            raise ValueError(
+                f"Item '{item}' can't be removed from the children of "
+                f"'{self._node_reference.coloured_name(False)}' because it "
+                f"is not one of them.")
+        for position in range(index + 1, len(self)):
             self._validate_item(position - 1, self[position])
         self._del_parent_link(item)
-        super().remove(item)
+        super().__delitem__(index)
         self._node_reference.update_signal()
 
     def pop(self, index=-1):
